@@ -31,7 +31,7 @@ def cases(tier, seed):
     out = []
     base = [('segy', 'heuristic'), ('segy', 'thorough'), ('segy', 'exhaustive'), ('segy-iops', 'heuristic'), ('numpy', None), ('irregular', 'thorough'),
             ('2d', 'heuristic'), ('2d', 'thorough'), ('crop', None), ('reblock', None), ('segy-zslice', 'thorough'), ('segy-general', 'heuristic'),
-            ('segy-2bit', 'strip')]
+            ('segy-2bit', 'strip'), ('segy-overwrite', 'heuristic')]
     reps = 1 if tier == 'quick' else 5
     for rep in range(reps):
         for kind, det in base:
@@ -52,11 +52,15 @@ def do_write(case, sc, rec):
     rec.only = out
     hdr = {'seed': rng.randrange(1 << 20), 'nfields': rng.randint(2, 4), 'inside': True}
     pre = None
-    if kind in ('segy', 'segy-iops', 'segy-zslice', 'segy-general', 'segy-2bit'):
+    if kind in ('segy', 'segy-iops', 'segy-zslice', 'segy-general', 'segy-2bit', 'segy-overwrite'):
         shape = (rng.choice([5, 9]), rng.choice([6, 7]), rng.choice([9, 30])) if kind != 'segy-2bit' else (12, 8, 40)
         src = conv.build_source(conv.src_desc(rng, '3d', shape, hdr=hdr, valkind='smooth', fmt=5), sc)
         rate, bs = {'segy': (4, (4, 4, -1)), 'segy-iops': (8, (4, 4, -1)), 'segy-zslice': (2, (64, 64, 4)), 'segy-general': (8, (8, 8, -1)),
-                    'segy-2bit': (2, (4, 4, -1))}[kind]
+                    'segy-2bit': (2, (4, 4, -1)), 'segy-overwrite': (4, (4, 4, -1))}[kind]
+        if kind == 'segy-overwrite':
+            # the output path already holds a finished file of the same layout made from ANOTHER survey (a conversion is re-run onto its old output)
+            other = conv.build_source(conv.src_desc(rng, '3d', shape, hdr=dict(hdr, seed=hdr['seed'] + 1), valkind='noise', fmt=5), sc, name='other.sgy')
+            conv.convert_segy(other['path'], out, rate, bs, detection=det)
         job = lambda: conv.convert_segy(src['path'], out, rate, bs, reduce_iops=kind == 'segy-iops', detection=det)   # noqa
     elif kind == 'numpy':
         D = gen.cube((6, 9, 20), 3)
@@ -292,7 +296,7 @@ def sample_view(case, res):
 
 def finalize(tier, cases, results, counters, strata):
     reasons = []
-    need = ['writer:segy', 'writer:numpy', 'writer:irregular', 'writer:2d', 'writer:crop', 'writer:reblock', 'writer:segy-2bit', 'detection:thorough', 'detection:heuristic',
+    need = ['writer:segy', 'writer:numpy', 'writer:irregular', 'writer:2d', 'writer:crop', 'writer:reblock', 'writer:segy-2bit', 'writer:segy-overwrite', 'detection:thorough', 'detection:heuristic',
             'states:raw-prefix', 'states:py-prefix', 'states:truncate']
     for s in need:
         if s not in strata:
